@@ -1009,10 +1009,32 @@ class Body:
         return sorted(self.describe_ap(ap) for ap in self.resolve(x))
 
     # ---- branch conditions -------------------------------------------------------------
-    def expr(self, op, depth=0):
+    def _reaching_def(self, l, at):
+        """the one whole-local definition of l that can reach block `at` (a local assigned on several paths - the return
+        value of an inlined helper after jump threading - has, at a given use, usually one definition that reaches it)"""
+        defs = self.defs().get(l, [])
+        if len(defs) <= 1:
+            return defs[0] if defs else None
+        blocks = [d[1] for d in defs]
+        if len(set(blocks)) != len(blocks):
+            return None
+        for d in defs:
+            if d[1] == at and d[0] == "assign":
+                return d
+        reach = []
+        for d in defs:
+            others = set(blocks) - {d[1]}
+            t = self.blocks[d[1]]["term"]
+            starts = [t["to"]] if d[0] == "call" and t.get("to") is not None else self.succs(d[1])
+            if at in self.reachable([s_ for s_ in starts if s_ not in others], removed_blocks=others):
+                reach.append(d)
+        return reach[0] if len(reach) == 1 else None
+
+    def expr(self, op, depth=0, at=None):
         """symbolic expression of an operand (for switch conditions):
         ('const', v) | ('call', bb) | ('discr', place) | ('bin', op, a, b) | ('not', e) |
-        ('place', place_str) | ('agg', ...)"""
+        ('place', place_str) | ('agg', ...). `at`: the block of the use (selects the reaching definition of a local
+        that is assigned on several paths)"""
         k = op.get("k") if isinstance(op, dict) else None
         if k is not None:
             return ("const", k.get("v", k["s"]))
@@ -1023,20 +1045,26 @@ class Body:
             return ("place", place_str(pl), pl)
         l = pl["l"]
         defs = self.defs().get(l, [])
-        if len(defs) != 1 or l in self.mut_borrowed():
+        if l in self.mut_borrowed():
             return ("place", place_str(pl), pl)
-        d = defs[0]
+        if len(defs) != 1:
+            d = self._reaching_def(l, at) if at is not None and defs else None
+            if d is None:
+                return ("place", place_str(pl), pl)
+        else:
+            d = defs[0]
         if d[0] == "call":
             return ("call", d[1])
         st = d[3]
         rv = st["rv"]
         r = rv["r"]
+        at2 = d[1] if at is not None else None
         if r == "use" or r == "cast":
-            return self.expr(rv["o"], depth + 1)
+            return self.expr(rv["o"], depth + 1, at2)
         if r == "un" and rv["op"] == "Not":
-            return ("not", self.expr(rv["a"], depth + 1))
+            return ("not", self.expr(rv["a"], depth + 1, at2))
         if r == "bin":
-            return ("bin", rv["op"], self.expr(rv["a"], depth + 1), self.expr(rv["b"], depth + 1))
+            return ("bin", rv["op"], self.expr(rv["a"], depth + 1, at2), self.expr(rv["b"], depth + 1, at2))
         if r == "discr":
             return ("discr", place_str(rv["pl"]), rv["pl"])
         return ("rv", d[1], d[2])
@@ -1045,7 +1073,7 @@ class Body:
         t = self.blocks[bb]["term"]
         if t["t"] != "switch":
             return None
-        return self.expr(t["on"])
+        return self.expr(t["on"], at=bb)
 
     def bool_edges(self, bb):
         """for a switch on a boolean-like operand: (true_targets, false_targets) in terms of the
@@ -1053,7 +1081,7 @@ class Body:
         t = self.blocks[bb]["term"]
         if t["t"] != "switch":
             return None
-        e = self.expr(t["on"])
+        e = self.expr(t["on"], at=bb)
         neg = False
         while e[0] == "not":
             neg = not neg
@@ -1080,7 +1108,7 @@ class Body:
             t = b["term"]
             if t["t"] != "switch":
                 continue
-            e = self.expr(t["on"])
+            e = self.expr(t["on"], at=i)
             while e[0] == "not":
                 e = e[1]
             if e == ("call", call_bb):
